@@ -270,6 +270,54 @@ Qed.
 
 End Generic.
 
+(* ---------- end to end over the reals: the GENERATED terms have the properties (tie + BoxProofs) ---------- *)
+From Romea Require Import BoxProofs.
+Local Open Scope R_scope.
+
+Lemma src_aabb_isInside_2_closed p0 p1 c0 c1 h0 h1 :
+  src_aabb_isInside_2 ROps p0 p1 c0 c1 h0 h1 = true <-> (c0 - h0 <= p0 <= c0 + h0 /\ c1 - h1 <= p1 <= c1 + h1).
+Proof.
+  rewrite (tie_aabb_isInside_2 ROps NumLits_R). rewrite aabb_inside_iff by reflexivity. split.
+  - intros H. split; [apply (H 0%nat)|apply (H 1%nat)]; simpl; auto.
+  - intros [H0 H1] [|[|i]] Hi; simpl in *; try assumption. exfalso. apply (Nat.lt_irrefl 2). do 2 apply Nat.succ_lt_mono in Hi. inversion Hi.
+Qed.
+
+Lemma src_aabb_isInside_3_closed p0 p1 p2 c0 c1 c2 h0 h1 h2 :
+  src_aabb_isInside_3 ROps p0 p1 p2 c0 c1 c2 h0 h1 h2 = true <->
+  (c0 - h0 <= p0 <= c0 + h0 /\ c1 - h1 <= p1 <= c1 + h1 /\ c2 - h2 <= p2 <= c2 + h2).
+Proof.
+  rewrite (tie_aabb_isInside_3 ROps NumLits_R). rewrite aabb_inside_iff by reflexivity. split.
+  - intros H. repeat split; first [apply (H 0%nat)|apply (H 1%nat)|apply (H 2%nat)]; simpl; auto.
+  - intros (H0 & H1 & H2) [|[|[|i]]] Hi; simpl in *; try assumption. exfalso. do 3 apply Nat.succ_lt_mono in Hi. inversion Hi.
+Qed.
+
+Lemma coords_pt2 (points : list (R * R)) :
+  coords (map (pt2 (T:=R)) points) 0 = map fst points /\ coords (map (pt2 (T:=R)) points) 1 = map snd points.
+Proof. unfold coords. rewrite !map_map. split; apply map_ext; intros [a b]; reflexivity. Qed.
+
+(* PointSetPreconditioner<Vector2d>::compute, as generated: whatever the members held before the call, for every non-empty
+   set of finite points the reported minimum / maximum are the true componentwise extrema and the mean is the centroid *)
+Lemma src_precond_compute_2_extents (points : list (R * R)) s t0 t1 me0 me1 mi0 mi1 ma0 ma1 :
+  points <> [] -> (forall p, In p points -> Rabs (fst p) <= nmaxval ROps /\ Rabs (snd p) <= nmaxval ROps) ->
+  let pc := pc2 (src_precond_compute_2 ROps points s t0 t1 me0 me1 mi0 mi1 ma0 ma1) in
+  is_min (map fst points) (pc_min pc).[0%nat] /\ is_max (map fst points) (pc_max pc).[0%nat] /\
+  is_min (map snd points) (pc_min pc).[1%nat] /\ is_max (map snd points) (pc_max pc).[1%nat] /\
+  (pc_mean pc).[0%nat] = Rsum (map fst points) / INR (length points) /\
+  (pc_mean pc).[1%nat] = Rsum (map snd points) / INR (length points).
+Proof.
+  intros Hne Hb pc. unfold pc. rewrite (tie_precond_compute_2 ROps NumLits_R).
+  assert (Hne' : map (pt2 (T:=R)) points <> []) by (destruct points; [contradiction|discriminate]).
+  assert (Hf : Forall (fun p => length p = 2%nat) (map (pt2 (T:=R)) points)).
+  { apply Forall_forall. intros p Hp. apply in_map_iff in Hp. destruct Hp as (q & <- & _). reflexivity. }
+  assert (Hbd : bounded (map (pt2 (T:=R)) points)).
+  { intros p x Hp Hx. apply in_map_iff in Hp. destruct Hp as (q & <- & Hq). destruct (Hb q Hq) as [B0 B1].
+    destruct Hx as [<-|[<-|[]]]; assumption. }
+  destruct (precond_lowest_correct 2 2 _ Hne' (Nat.lt_0_succ 1) (Nat.le_refl 2) Hf Hbd) as (E & _ & _).
+  destruct (coords_pt2 points) as [C0 C1].
+  destruct (E 0%nat (Nat.lt_0_succ 1)) as (A1 & A2 & A3). destruct (E 1%nat (Nat.lt_succ_diag_r 1)) as (B1 & B2 & B3).
+  rewrite C0 in A1, A2, A3. rewrite C1 in B1, B2, B3. rewrite map_length in A3, B3. tauto.
+Qed.
+
 (* ---------- the real-number instance (the one the theorems of Properties_C20.v are about) ---------- *)
 Definition tieR_aabb_isInside_2 := tie_aabb_isInside_2 ROps NumLits_R.
 Definition tieR_aabb_isInside_3 := tie_aabb_isInside_3 ROps NumLits_R.
